@@ -66,8 +66,7 @@ def decide(fn, pre, good, *, inst, harness, replay, regions=(), twin=None, max_d
         res["queries"] += 1
         if r == "unsat":
             res["unsat"] += 1
-            if p.pc or not z3.is_false(z3.simplify(bad)):
-                res["nontrivial"] = True
+            res["nontrivial"] = True
         elif r == "unknown":
             res["undecided"] += 1
         else:
